@@ -18,8 +18,15 @@ def sACK : Str := ['A','C','K']
 def sNAK : Str := ['N','A','K']
 
 inductive AuthSt where
-  | none | mech | payload
+  | none      -- nothing owed
+  | mech      -- a mechanism was requested: `AUTHENTICATE +`, a challenge or a failure numeric is owed
+  | more      -- a credentials line of exactly AUTHENTICATE_CHUNK_SIZE characters arrived: more must follow, the
+              -- server owes nothing yet
+  | payload   -- a complete answer arrived: 903 / 904… / the next challenge is owed
 deriving DecidableEq, Repr
+
+/-- the server owes an answer in the SASL exchange -/
+def AuthSt.owed (a : AuthSt) : Bool := a = .mech || a = .payload
 
 structure View where
   v3 : Bool                     -- the server implements capability negotiation (else it ignores CAP)
@@ -35,7 +42,7 @@ def seeOut (v : View) : Out → View
   | .capReq ws => { v with reqs := v.reqs ++ [ws] }
   | .capEnd => { v with ended := true }
   | .authMech _ => { v with auth := .mech }
-  | .authPayload _ => { v with auth := .payload }
+  | .authPayload c => { v with auth := if c.length = Gen.Conn.authenticateChunkSize then .more else .payload }
   | .authOpaque => { v with auth := .payload }
   | .authAbort => { v with auth := .payload }
   | _ => v
@@ -71,12 +78,12 @@ inductive SrvMove : View → Msg → View → Prop
   | nak (v : View) (t caps n : Str) (ws : List Str) (rest : List (List Str)) (h3 : v.v3 = true)
       (hq : v.reqs = ws :: rest) (hw : splitWs caps = ws) : SrvMove v ⟨sCAP, [t, sNAK, caps], n⟩ { v with reqs := rest }
   /-- `AUTHENTICATE +` or a complete, well-formed challenge -/
-  | authContinue (v : View) (c n : Str) (h3 : v.v3 = true) (ha : v.auth ≠ .none)
+  | authContinue (v : View) (c n : Str) (h3 : v.v3 = true) (ha : v.auth.owed = true)
       (hc : c = sPlus ∨ (c.length ≠ Gen.Conn.authenticateChunkSize ∧ (b64decodedLen [c]).isSome = true)) :
       SrvMove v ⟨sAUTHENTICATE, [c], n⟩ { v with auth := .none }
   | authOk (v : View) (args : List Str) (n : Str) (h3 : v.v3 = true) (ha : v.auth = .payload) :
       SrvMove v ⟨num '9' '0' '3', args, n⟩ { v with auth := .none }
-  | authFail (v : View) (c : Str) (args : List Str) (n : Str) (h3 : v.v3 = true) (ha : v.auth ≠ .none)
+  | authFail (v : View) (c : Str) (args : List Str) (n : Str) (h3 : v.v3 = true) (ha : v.auth.owed = true)
       (hc : isFailNumeric c = true) : SrvMove v ⟨c, args, n⟩ { v with auth := .none }
   /-- RPL_SASLMECHS: the failure numeric is still owed -/
   | mechs (v : View) (args : List Str) (n : Str) (ha : v.auth = .mech) : SrvMove v ⟨num '9' '0' '8', args, n⟩ v
@@ -199,23 +206,82 @@ theorem authChunks_ne (sz : Nat) (a : Str) : authChunks sz a ≠ [] := by
   unfold authChunks authChunksAux
   split <;> simp
 
+/-- shape of the output of `authenticate_generator`: full-size pieces followed by one final piece that is
+shorter (or `+` when nothing is left), together spelling the base64 text -/
+def ChunksOk (sz : Nat) (a : Str) (l : List Str) : Prop :=
+  ∃ pieces final, l = pieces ++ [final] ∧ (∀ p ∈ pieces, p.length = sz) ∧
+    ((final.length < sz ∧ final ≠ [] ∧ pieces.flatten ++ final = a) ∨ (final = sPlus ∧ pieces.flatten = a))
+
+theorem authChunksAux_ok (sz : Nat) (hsz : 0 < sz) : ∀ (fuel : Nat) (a : Str), a.length < fuel →
+    ChunksOk sz a (authChunksAux sz fuel a) := by
+  intro fuel
+  induction fuel with
+  | zero => intro a h; omega
+  | succ k ih =>
+    intro a h
+    unfold authChunksAux
+    by_cases hlt : a.length < sz
+    · rw [if_pos hlt]
+      by_cases he : a.isEmpty = true
+      · rw [if_pos he]
+        have : a = [] := by simpa using he
+        exact ⟨[], sPlus, rfl, by simp, .inr ⟨rfl, by simp [this]⟩⟩
+      · rw [if_neg he]
+        have : a ≠ [] := by simpa using he
+        exact ⟨[], a, rfl, by simp, .inl ⟨hlt, this, by simp⟩⟩
+    · rw [if_neg hlt]
+      have hlen : (a.drop sz).length < k := by simp [List.length_drop]; omega
+      obtain ⟨pieces, final, h1, h2, h3⟩ := ih (a.drop sz) hlen
+      refine ⟨a.take sz :: pieces, final, by rw [h1]; rfl, ?_, ?_⟩
+      · intro p hp
+        simp only [List.mem_cons] at hp
+        rcases hp with rfl | hp
+        · simp [List.length_take]; omega
+        · exact h2 p hp
+      · rcases h3 with ⟨a1, a2, a3⟩ | ⟨a1, a3⟩
+        · exact .inl ⟨a1, a2, by simp only [List.flatten_cons, List.append_assoc]; rw [a3]; exact List.take_append_drop sz a⟩
+        · exact .inr ⟨a1, by simp only [List.flatten_cons]; rw [a3]; exact List.take_append_drop sz a⟩
+
+/-- `authenticate_generator`: for every text, the lines are full-size pieces followed by one final line
+that is shorter than the chunk size or `+`; concatenated (the terminating `+` dropped) they are the text -/
+theorem chunks_ok (sz : Nat) (hsz : 0 < sz) (a : Str) : ChunksOk sz a (authChunks sz a) :=
+  authChunksAux_ok sz hsz (a.length + 1) a (Nat.lt_succ_self _)
+
+theorem tabP_chunk : 1 < Gen.Conn.authenticateChunkSize := by decide
+
 def isPayloadOut : Out → Bool
   | .authPayload _ => true
   | .authOpaque => true
   | .authAbort => true
   | _ => false
 
+/-- a line that completes an answer: shorter than the chunk size (or the signature / abort marker) -/
+def isFinalOut : Out → Bool
+  | .authPayload c => c.length != Gen.Conn.authenticateChunkSize
+  | .authOpaque => true
+  | .authAbort => true
+  | _ => false
+
+/-- the lines of one answer: credentials lines only, the last one completing it -/
+def Answer (outs : List Out) : Prop :=
+  (∀ o ∈ outs, isPayloadOut o = true) ∧ ∃ init o, outs = init ++ [o] ∧ isFinalOut o = true
+
 theorem sendSasl_sends (bytes : List Nat) (s : St) :
-    ∃ outs, outs ≠ [] ∧ (∀ o ∈ outs, isPayloadOut o = true) ∧ sendSaslString bytes s = { s with fastq := s.fastq ++ outs } := by
-  refine ⟨(authChunks Gen.Conn.authenticateChunkSize (b64encode bytes)).map Out.authPayload, ?_, ?_, sendSaslString_eq bytes s⟩
-  · simpa using authChunks_ne _ _
+    ∃ outs, Answer outs ∧ sendSaslString bytes s = { s with fastq := s.fastq ++ outs } := by
+  refine ⟨(authChunks Gen.Conn.authenticateChunkSize (b64encode bytes)).map Out.authPayload, ⟨?_, ?_⟩, sendSaslString_eq bytes s⟩
   · intro o ho; simp only [List.mem_map] at ho; obtain ⟨c, _, rfl⟩ := ho; rfl
+  · obtain ⟨pieces, final, h1, _, h3⟩ := chunks_ok Gen.Conn.authenticateChunkSize (by have := tabP_chunk; omega) (b64encode bytes)
+    refine ⟨pieces.map Out.authPayload, .authPayload final, by rw [h1]; simp, ?_⟩
+    have hlen : final.length ≠ Gen.Conn.authenticateChunkSize := by
+      rcases h3 with ⟨a1, _, _⟩ | ⟨a1, _⟩
+      · omega
+      · rw [a1]; have := tabP_chunk; simp [sPlus]; omega
+    simp [isFinalOut, hlen]
 
 /-- the answer of the bot to a complete server AUTHENTICATE when its current mechanism is one it
 made available itself: at least one credentials / abort line, nothing else changes -/
 theorem authRespond_sends (n : Nat) (s : St) (m : Str) (hc : s.saslCur = some m) (hm : mechAvailable cfg m = true) :
-    ∃ outs, outs ≠ [] ∧ (∀ o ∈ outs, isPayloadOut o = true) ∧
-      (authRespond cfg n s).st = { s with fastq := s.fastq ++ outs } := by
+    ∃ outs, Answer outs ∧ (authRespond cfg n s).st = { s with fastq := s.fastq ++ outs } := by
   unfold authRespond
   split
   · rename_i h; rw [hc] at h; cases h
@@ -226,8 +292,8 @@ theorem authRespond_sends (n : Nat) (s : St) (m : Str) (hc : s.saslCur = some m)
       split
       · exact sendSasl_sends _ s
       · split
-        · exact ⟨[.authOpaque], by simp, by simp [isPayloadOut], rfl⟩
-        · exact ⟨[.authAbort], by simp, by simp [isPayloadOut], rfl⟩
+        · exact ⟨[.authOpaque], ⟨by simp [isPayloadOut], [], .authOpaque, rfl, rfl⟩, rfl⟩
+        · exact ⟨[.authAbort], ⟨by simp [isPayloadOut], [], .authAbort, rfl, rfl⟩, rfl⟩
     · simp only [h1, if_false]
       by_cases h2 : m = sExternal
       · simp only [h2, if_true]; exact sendSasl_sends _ s
@@ -249,7 +315,7 @@ def pcore (s : St) :=
 theorem doAuthenticate_sasl (s : St) (c : Str) (hf : s.fsm = .INIT_SASL) (hdec : s.dec = none)
     (hc : c = sPlus ∨ (c.length ≠ Gen.Conn.authenticateChunkSize ∧ (b64decodedLen [c]).isSome = true))
     (m : Str) (hcur : s.saslCur = some m) (hm : mechAvailable cfg m = true) :
-    ∃ outs, outs ≠ [] ∧ (∀ o ∈ outs, isPayloadOut o = true) ∧
+    ∃ outs, Answer outs ∧
       (doAuthenticate cfg sAUTHENTICATE [c] s).st.fastq = s.fastq ++ outs ∧
       pcore (doAuthenticate cfg sAUTHENTICATE [c] s).st = pcore s := by
   have hcd : curDecoder s = ⟨[], false⟩ := by simp [curDecoder, hdec]
@@ -274,8 +340,8 @@ theorem doAuthenticate_sasl (s : St) (c : Str) (hf : s.fsm = .INIT_SASL) (hdec :
   | none => rw [hb] at hchunks; cases hchunks
   | some n =>
     simp only
-    obtain ⟨outs, h1, h2, h3⟩ := authRespond_sends (cfg := cfg) n ({ s with dec := none } : St) m hcur hm
-    refine ⟨outs, h1, h2, ?_, ?_⟩
+    obtain ⟨outs, h1, h3⟩ := authRespond_sends (cfg := cfg) n ({ s with dec := none } : St) m hcur hm
+    refine ⟨outs, h1, ?_, ?_⟩
     · rw [h3]
     · rw [h3]; simp [pcore, hdec]
 
@@ -428,19 +494,20 @@ inductive Phase (cfg : Cfg) (b : Bot) (v : View) : Prop
       (hne : ∀ l ∈ v.reqs, l ≠ [])
   /-- SASL exchange: an answer to the mechanism request or to the credentials is owed -/
   | sasl (h3 : v.v3 = true) (he : v.ended = false) (hs : v.stage = 0) (hf : b.fsm = .INIT_SASL)
-      (ha : v.auth ≠ .none) (hauth : b.saslAuth = false) (hd : b.dec = none) (hcur : b.saslCur ≠ none)
-      (hl : v.lsOwed = false)
+      (ha : v.auth.owed = true) (hauth : b.saslAuth = false) (hd : b.dec = none) (hcur : b.saslCur ≠ none)
+      (hl : v.lsOwed = false) (hres : ∀ c ∈ b.req, c ∈ b.ack ∨ c ∈ b.nak)
   /-- CAP END sent: the welcome numerics are owed -/
   | waiting (h3 : v.v3 = true) (he : v.ended = true) (hs : v.stage ≤ 5) (hf : b.fsm = .INIT_WAITING_MOTD)
-      (ha : v.auth = .none) (hl : v.lsOwed = false)
+      (ha : v.auth = .none) (hl : v.lsOwed = false) (hres : ∀ c ∈ b.req, c ∈ b.ack ∨ c ∈ b.nak)
   /-- a server without capability negotiation: the welcome numerics are owed from the start -/
   | nocap (h3 : v.v3 = false) (hs : v.stage ≤ 5) (hf : b.fsm = .INIT_CAP_NEGOTIATION) (ha : v.auth = .none)
+      (hreq : b.req = [])
   | motd (hw : canWelcome v = true) (hs : v.stage = 6) (hf : b.fsm = .INIT_MOTD) (ha : v.auth = .none)
-      (hl : v.v3 = true → v.lsOwed = false)
+      (hl : v.v3 = true → v.lsOwed = false) (hres : ∀ c ∈ b.req, c ∈ b.ack ∨ c ∈ b.nak)
 
 /-- the conformant server still owes the client something (it has a move that is not a PING / notice) -/
 def Owes (v : View) : Prop :=
-  (v.v3 = true ∧ (v.lsOwed = true ∨ v.reqs ≠ [] ∨ v.auth ≠ .none)) ∨ (canWelcome v = true ∧ v.stage < 7)
+  (v.v3 = true ∧ (v.lsOwed = true ∨ v.reqs ≠ [] ∨ v.auth.owed = true)) ∨ (canWelcome v = true ∧ v.stage < 7)
 
 theorem owes_of_phase {cfg : Cfg} {b : Bot} {v : View} (p : Phase cfg b v) : Owes v := by
   cases p with
@@ -449,10 +516,10 @@ theorem owes_of_phase {cfg : Cfg} {b : Bot} {v : View} (p : Phase cfg b v) : Owe
     cases h : v.lsOwed with
     | true => exact .inl rfl
     | false => exact .inr (.inl (howe h))
-  | sasl h3 he hs hf ha hauth hd hcur hl => exact .inl ⟨h3, .inr (.inr ha)⟩
-  | waiting h3 he hs hf ha hl => exact .inr ⟨by simp [canWelcome, he], by omega⟩
-  | nocap h3 hs hf ha => exact .inr ⟨by simp [canWelcome, h3], by omega⟩
-  | motd hw hs hf ha hl => exact .inr ⟨hw, by omega⟩
+  | sasl h3 he hs hf ha hauth hd hcur hl _ => exact .inl ⟨h3, .inr (.inr ha)⟩
+  | waiting h3 he hs hf ha hl _ => exact .inr ⟨by simp [canWelcome, he], by omega⟩
+  | nocap h3 hs hf ha _ => exact .inr ⟨by simp [canWelcome, h3], by omega⟩
+  | motd hw hs hf ha hl _ => exact .inr ⟨hw, by omega⟩
 
 /-- aborted deliberately, or connected (end of MOTD seen), or the registration is in one of its phases -/
 def Inv (cfg : Cfg) (s : St) (v : View) : Prop :=
@@ -561,20 +628,21 @@ theorem phase_congr {cfg : Cfg} {b b' : Bot} {v : View} (h : pfields b' = pfield
   | neg h3 he hs hf ha hauth hd hls howe hacc hkeys hne =>
     exact .neg h3 he hs (e1 ▸ hf) ha (e7 ▸ hauth) (e8 ▸ hd) (by rw [e3, e4, e5]; exact hls) howe
       (by rw [e3, e4, e5]; exact hacc) (by rw [e2, e4]; exact hkeys) hne
-  | sasl h3 he hs hf ha hauth hd hcur hl => exact .sasl h3 he hs (e1 ▸ hf) ha (e7 ▸ hauth) (e8 ▸ hd) (e6 ▸ hcur) hl
-  | waiting h3 he hs hf ha hl => exact .waiting h3 he hs (e1 ▸ hf) ha hl
-  | nocap h3 hs hf ha => exact .nocap h3 hs (e1 ▸ hf) ha
-  | motd hw hs hf ha hl => exact .motd hw hs (e1 ▸ hf) ha hl
+  | sasl h3 he hs hf ha hauth hd hcur hl hres =>
+    exact .sasl h3 he hs (e1 ▸ hf) ha (e7 ▸ hauth) (e8 ▸ hd) (e6 ▸ hcur) hl (by rw [e3, e4, e5]; exact hres)
+  | waiting h3 he hs hf ha hl hres => exact .waiting h3 he hs (e1 ▸ hf) ha hl (by rw [e3, e4, e5]; exact hres)
+  | nocap h3 hs hf ha hreq => exact .nocap h3 hs (e1 ▸ hf) ha (e3 ▸ hreq)
+  | motd hw hs hf ha hl hres => exact .motd hw hs (e1 ▸ hf) ha hl (by rw [e3, e4, e5]; exact hres)
 
 /-- in the phases in which the welcome may arrive, the stage may advance up to 5 -/
 theorem phase_stage {cfg : Cfg} {b : Bot} {v : View} (k : Nat) (hk : k ≤ 5) (hw : canWelcome v = true) (hs : v.stage ≤ 5)
     (p : Phase cfg b v) : Phase cfg b { v with stage := k } := by
   cases p with
   | neg h3 he _ _ _ _ _ _ _ _ _ _ => simp [canWelcome, h3, he] at hw
-  | sasl h3 he _ _ _ _ _ _ _ => simp [canWelcome, h3, he] at hw
-  | waiting h3 he _ hf ha hl => exact .waiting h3 he hk hf ha hl
-  | nocap h3 _ hf ha => exact .nocap h3 hk hf ha
-  | motd _ hs6 _ _ _ => omega
+  | sasl h3 he _ _ _ _ _ _ _ _ => simp [canWelcome, h3, he] at hw
+  | waiting h3 he _ hf ha hl hres => exact .waiting h3 he hk hf ha hl hres
+  | nocap h3 _ hf ha hreq => exact .nocap h3 hk hf ha hreq
+  | motd _ hs6 _ _ _ _ => omega
 
 /-! ### welcome numerics 001–005 -/
 
@@ -670,13 +738,14 @@ theorem inv_aborted {cfg : Cfg} {s : St} {v : View} {r : StepResult} (h : r.even
   .inl (seeStep_aborted v r h)
 
 theorem phase_fsm_welcome {cfg : Cfg} {b : Bot} {v : View} (hw : canWelcome v = true) (hs : v.stage ≤ 5) (p : Phase cfg b v) :
-    (b.fsm = .INIT_CAP_NEGOTIATION ∨ b.fsm = .INIT_WAITING_MOTD) ∧ v.auth = .none ∧ (v.v3 = true → v.lsOwed = false) := by
+    (b.fsm = .INIT_CAP_NEGOTIATION ∨ b.fsm = .INIT_WAITING_MOTD) ∧ v.auth = .none ∧ (v.v3 = true → v.lsOwed = false) ∧
+    (∀ c ∈ b.req, c ∈ b.ack ∨ c ∈ b.nak) := by
   cases p with
   | neg h3 he _ _ _ _ _ _ _ _ _ _ => simp [canWelcome, h3, he] at hw
-  | sasl h3 he _ _ _ _ _ _ _ => simp [canWelcome, h3, he] at hw
-  | waiting h3 he _ hf ha hl => exact ⟨.inr hf, ha, fun _ => hl⟩
-  | nocap h3 _ hf ha => exact ⟨.inl hf, ha, fun h => by rw [h3] at h; cases h⟩
-  | motd _ hs6 _ _ _ => omega
+  | sasl h3 he _ _ _ _ _ _ _ _ => simp [canWelcome, h3, he] at hw
+  | waiting h3 he _ hf ha hl hres => exact ⟨.inr hf, ha, fun _ => hl, hres⟩
+  | nocap h3 _ hf ha hreq => exact ⟨.inl hf, ha, fun h => (by rw [h3] at h; cases h), fun c hc => (by rw [hreq] at hc; cases hc)⟩
+  | motd _ hs6 _ _ _ _ => omega
 
 theorem pres_motdStart {cfg : Cfg} (hd : cfg.realDriver = false) {s : St} {v : View} (a : Str) (args : List Str) (n : Str)
     (hw : canWelcome v = true) (hs : v.stage = 5)
@@ -686,7 +755,7 @@ theorem pres_motdStart {cfg : Cfg} (hd : cfg.realDriver = false) {s : St} {v : V
   obtain ⟨f1, f2, f3⟩ := step_facts (cfg := cfg) s { s with nick := a } ⟨num '3' '7' '5', a :: args, n⟩
     (nickSetter_numeric _ _ _ _ _ (show Gen.Conn.nickSetters.contains (num '3' '7' '5') = true by decide))
   obtain ⟨hc, hp⟩ := h
-  obtain ⟨hfsm, hauth, hl⟩ := phase_fsm_welcome hw (by omega) hp
+  obtain ⟨hfsm, hauth, hl, hres⟩ := phase_fsm_welcome hw (by omega) hp
   have hrun := run_n375 (cfg := cfg) (show dispatch ⟨num '3' '7' '5', a :: args, n⟩ = .n375 from rfl) ({ s with nick := a } : St)
   have h375 := do375_stub hd ({ s with nick := a } : St) hfsm
   by_cases hm : saslMissing cfg ({ s with nick := a } : St) = true
@@ -701,7 +770,7 @@ theorem pres_motdStart {cfg : Cfg} (hd : cfg.realDriver = false) {s : St} {v : V
     · rw [f3]; exact hc.mechsNext
     · rw [f3]; exact hc.mechsCur
     · intro h0; simp at h0
-    · rw [f3]; exact .motd hw rfl rfl hauth hl
+    · rw [f3]; exact .motd hw rfl rfl hauth hl hres
 
 theorem pres_endMotd {cfg : Cfg} (hd : cfg.realDriver = false) {s s1 : St} {v' : View} (m : Msg)
     (hn : nickSetter m s = ok s1) (hdisp : dispatch m = .n376) (hb : bot s1 = { bot s with nick := s1.nick })
@@ -803,55 +872,70 @@ theorem bot_of_pcore {s s' : St} (h : pcore s' = pcore s) : bot s' = bot s ∧ s
   obtain ⟨h1, h2, h3, h4, h5, h6, h7, h8, h9, h10, h11, h12, h13, h14⟩ := h
   exact ⟨by simp [bot, *], h14⟩
 
-theorem fold_payload (outs : List Out) (v : View) (hne : outs ≠ []) (hall : ∀ o ∈ outs, isPayloadOut o = true) :
-    outs.foldl seeOut v = { v with auth := .payload } := by
+theorem seeOut_payload (o : Out) (h : isPayloadOut o = true) : ∃ x, ∀ v : View, seeOut v o = { v with auth := x } := by
+  cases o <;> first | exact ⟨_, fun _ => rfl⟩ | cases h
+
+theorem fold_payload_aux (outs : List Out) (hall : ∀ o ∈ outs, isPayloadOut o = true) (v : View) :
+    ∃ x, outs.foldl seeOut v = { v with auth := x } := by
   induction outs generalizing v with
-  | nil => exact absurd rfl hne
+  | nil => exact ⟨v.auth, rfl⟩
   | cons o os ih =>
-    have ho : seeOut v o = { v with auth := .payload } := by
-      have := hall o List.mem_cons_self
-      cases o <;> first | rfl | cases this
-    simp only [List.foldl_cons, ho]
-    cases os with
-    | nil => rfl
-    | cons o2 os2 =>
-      rw [ih _ (by simp) (fun x hx => hall x (List.mem_cons_of_mem _ hx))]
+    obtain ⟨x, hx⟩ := seeOut_payload o (hall o List.mem_cons_self)
+    obtain ⟨y, hy⟩ := ih (fun q hq => hall q (List.mem_cons_of_mem _ hq)) { v with auth := x }
+    exact ⟨y, by rw [List.foldl_cons, hx, hy]⟩
+
+/-- the server has a complete answer in front of it once the lines of an `Answer` arrived -/
+theorem fold_payload (outs : List Out) (v : View) (h : Answer outs) : outs.foldl seeOut v = { v with auth := .payload } := by
+  obtain ⟨hall, init, o, rfl, hfin⟩ := h
+  obtain ⟨x, hx⟩ := fold_payload_aux init (fun q hq => hall q (List.mem_append_left _ hq)) v
+  rw [List.foldl_append, hx]
+  simp only [List.foldl_cons, List.foldl_nil]
+  cases o with
+  | authPayload c =>
+    simp only [isFinalOut, bne_iff_ne, ne_eq] at hfin
+    simp [seeOut, hfin]
+  | authOpaque => rfl
+  | authAbort => rfl
+  | _ => cases hfin
+
+theorem owed_ne_none {a : AuthSt} (h : a.owed = true) : a ≠ .none := by
+  intro he; rw [he] at h; cases h
 
 theorem phase_sasl_of_auth {cfg : Cfg} {b : Bot} {v : View} (ha : v.auth ≠ .none) (p : Phase cfg b v) :
     v.v3 = true ∧ v.ended = false ∧ v.stage = 0 ∧ b.fsm = .INIT_SASL ∧ b.saslAuth = false ∧ b.dec = none ∧
-    b.saslCur ≠ none ∧ v.lsOwed = false := by
+    b.saslCur ≠ none ∧ v.lsOwed = false ∧ (∀ c ∈ b.req, c ∈ b.ack ∨ c ∈ b.nak) := by
   cases p with
   | neg _ _ _ _ h _ _ _ _ _ _ _ => exact absurd h ha
-  | sasl h3 he hs hf _ hauth hd hcur hl => exact ⟨h3, he, hs, hf, hauth, hd, hcur, hl⟩
-  | waiting _ _ _ _ h _ => exact absurd h ha
-  | nocap _ _ _ h => exact absurd h ha
-  | motd _ _ _ h _ => exact absurd h ha
+  | sasl h3 he hs hf _ hauth hd hcur hl hres => exact ⟨h3, he, hs, hf, hauth, hd, hcur, hl, hres⟩
+  | waiting _ _ _ _ h _ _ => exact absurd h ha
+  | nocap _ _ _ h _ => exact absurd h ha
+  | motd _ _ _ h _ _ => exact absurd h ha
 
-theorem pres_authContinue {cfg : Cfg} {s : St} {v : View} (c n : Str) (hav : v.auth ≠ .none)
+theorem pres_authContinue {cfg : Cfg} {s : St} {v : View} (c n : Str) (hav : v.auth.owed = true)
     (hc : c = sPlus ∨ (c.length ≠ Gen.Conn.authenticateChunkSize ∧ (b64decodedLen [c]).isSome = true))
     (hq : s.fastq = [] ∧ s.ev = []) (ha : v.aborted = false) (h : Common cfg (bot s) v ∧ Phase cfg (bot s) v) :
     Inv cfg (step cfg s ⟨sAUTHENTICATE, [c], n⟩).st
       (seeStep { v with auth := .none } (step cfg s ⟨sAUTHENTICATE, [c], n⟩)) := by
   obtain ⟨hcm, hp⟩ := h
-  obtain ⟨h3, he, hs, hf, hauth, hd, hcur, hl⟩ := phase_sasl_of_auth hav hp
+  obtain ⟨h3, he, hs, hf, hauth, hd, hcur, hl, hres⟩ := phase_sasl_of_auth (owed_ne_none hav) hp
   obtain ⟨f1, f2, f3⟩ := step_facts (cfg := cfg) s s ⟨sAUTHENTICATE, [c], n⟩
     (nickSetter_plain _ _ (show Gen.Conn.nickSetters.contains sAUTHENTICATE = false by decide))
   rw [run_authenticate (show dispatch ⟨sAUTHENTICATE, [c], n⟩ = .authenticate from rfl)] at f1 f2 f3
   cases hm : s.saslCur with
   | none => exact absurd hm hcur
   | some m =>
-    obtain ⟨outs, o1, o2, o3, o4⟩ := doAuthenticate_sasl (cfg := cfg) s c hf hd hc m hm (hcm.mechsCur m hm)
+    obtain ⟨outs, o1, o3, o4⟩ := doAuthenticate_sasl (cfg := cfg) s c hf hd hc m hm (hcm.mechsCur m hm)
     obtain ⟨hb, hev⟩ := bot_of_pcore o4
     simp only at f1 f2 f3
     rw [o3, hq.1, List.nil_append] at f1
     rw [hev, hq.2] at f2
     rw [hb] at f3
-    rw [seeStep_quiet { v with auth := .none } _ f2 ha, f1, fold_payload outs _ o1 o2]
+    rw [seeStep_quiet { v with auth := .none } _ f2 ha, f1, fold_payload outs _ o1]
     refine .inr (.inr ⟨⟨?_, ?_, ?_⟩, ?_⟩)
     · rw [f3]; exact hcm.mechsNext
     · rw [f3]; exact hcm.mechsCur
     · intro _; rw [f3]; exact hcm.nick0 hs
-    · rw [f3]; exact .sasl h3 he hs hf (by simp) hauth hd hcur hl
+    · rw [f3]; exact .sasl h3 he hs hf rfl hauth hd hcur hl hres
 
 /-- Irc.do903 in INIT_SASL: authenticated, back to the negotiation state, CAP END at once -/
 theorem do903_sasl {cfg : Cfg} (hd : cfg.realDriver = false) (s : St) (hf : s.fsm = .INIT_SASL) :
@@ -869,7 +953,7 @@ theorem pres_authOk {cfg : Cfg} (hd : cfg.realDriver = false) {s : St} {v : View
     Inv cfg (step cfg s ⟨num '9' '0' '3', args, n⟩).st
       (seeStep { v with auth := .none } (step cfg s ⟨num '9' '0' '3', args, n⟩)) := by
   obtain ⟨hcm, hp⟩ := h
-  obtain ⟨h3, he, hs, hf, hauth, hdec, hcur, hl⟩ := phase_sasl_of_auth (by rw [hav]; simp) hp
+  obtain ⟨h3, he, hs, hf, hauth, hdec, hcur, hl, hres⟩ := phase_sasl_of_auth (by rw [hav]; simp) hp
   obtain ⟨f1, f2, f3⟩ := step_facts (cfg := cfg) s s ⟨num '9' '0' '3', args, n⟩
     (nickSetter_plain _ _ (show Gen.Conn.nickSetters.contains (num '9' '0' '3') = false by decide))
   rw [run_n903 (show dispatch ⟨num '9' '0' '3', args, n⟩ = .n903 from rfl), do903_sasl hd s hf] at f1 f2 f3
@@ -880,7 +964,7 @@ theorem pres_authOk {cfg : Cfg} (hd : cfg.realDriver = false) {s : St} {v : View
   · rw [f3]; exact hcm.mechsNext
   · rw [f3]; exact hcm.mechsCur
   · intro _; rw [f3]; exact hcm.nick0 hs
-  · rw [f3]; exact .waiting h3 rfl (by simp only; omega) rfl rfl hl
+  · rw [f3]; exact .waiting h3 rfl (by simp only; omega) rfl rfl hl hres
 
 theorem fail_dispatch (c : Str) (hc : isFailNumeric c = true) (args : List Str) (n : Str) :
     dispatch ⟨c, args, n⟩ = .n904to907 ∧ Gen.Conn.nickSetters.contains c = false := by
@@ -889,11 +973,11 @@ theorem fail_dispatch (c : Str) (hc : isFailNumeric c = true) (args : List Str) 
   rcases hc with ((rfl | rfl) | rfl) | rfl <;> exact ⟨rfl, by decide⟩
 
 theorem pres_authFail {cfg : Cfg} (hd : cfg.realDriver = false) {s : St} {v : View} (c : Str) (args : List Str) (n : Str)
-    (hav : v.auth ≠ .none) (hc : isFailNumeric c = true) (hq : s.fastq = [] ∧ s.ev = []) (ha : v.aborted = false)
+    (hav : v.auth.owed = true) (hc : isFailNumeric c = true) (hq : s.fastq = [] ∧ s.ev = []) (ha : v.aborted = false)
     (h : Common cfg (bot s) v ∧ Phase cfg (bot s) v) :
     Inv cfg (step cfg s ⟨c, args, n⟩).st (seeStep { v with auth := .none } (step cfg s ⟨c, args, n⟩)) := by
   obtain ⟨hcm, hp⟩ := h
-  obtain ⟨h3, he, hs, hf, hauth, hdec, hcur, hl⟩ := phase_sasl_of_auth hav hp
+  obtain ⟨h3, he, hs, hf, hauth, hdec, hcur, hl, hres⟩ := phase_sasl_of_auth (owed_ne_none hav) hp
   obtain ⟨hdisp, hns⟩ := fail_dispatch c hc args n
   obtain ⟨f1, f2, f3⟩ := step_facts (cfg := cfg) s s ⟨c, args, n⟩ (nickSetter_plain _ _ hns)
   have ht := tryNext_sasl (cfg := cfg) hd s hf
@@ -912,7 +996,7 @@ theorem pres_authFail {cfg : Cfg} (hd : cfg.realDriver = false) {s : St} {v : Vi
       have : m = x := by simpa [bot, sendMsg, ok] using hx
       rw [← this]; exact hcm.mechsNext m hmem
     · intro _; rw [f3]; exact hcm.nick0 hs
-    · rw [f3]; exact .sasl h3 he hs hf (by simp) hauth hdec (by simp [bot, sendMsg, ok]) hl
+    · rw [f3]; exact .sasl h3 he hs hf rfl hauth hdec (by simp [bot, sendMsg, ok]) hl hres
   | nil =>
     rw [hnx] at ht; simp only at ht
     by_cases hr : cfg.required = true
@@ -928,7 +1012,7 @@ theorem pres_authFail {cfg : Cfg} (hd : cfg.realDriver = false) {s : St} {v : Vi
       · rw [f3]; intro x hx; simp [bot, sendMsg, ok] at hx
       · rw [f3]; intro x hx; simp [bot, sendMsg, ok] at hx
       · intro _; rw [f3]; exact hcm.nick0 hs
-      · rw [f3]; exact .waiting h3 rfl (by simp only; omega) rfl rfl hl
+      · rw [f3]; exact .waiting h3 rfl (by simp only; omega) rfl rfl hl hres
 
 /-! ### list / set / dictionary facts used by the CAP moves -/
 
@@ -1037,6 +1121,14 @@ theorem fill_covers {width : Nat} {l : List Str} {w : Str} (h : w ∈ l) : ∃ l
     · exact .inl (by simp)
     · exact .inr h
 
+theorem fill_eq_nil {width : Nat} {l : List Str} (h : fill width l = []) : l = [] := by
+  cases l with
+  | nil => rfl
+  | cons w ws =>
+    exfalso
+    obtain ⟨line, hl, _⟩ := fill_covers (width := width) (l := w :: ws) (w := w) List.mem_cons_self
+    rw [h] at hl; cases hl
+
 theorem fold_capReq (lines : List (List Str)) (v : View) :
     (lines.map Out.capReq).foldl seeOut v = { v with reqs := v.reqs ++ lines } := by
   induction lines generalizing v with
@@ -1072,10 +1164,10 @@ theorem phase_neg_of_lsOwed {cfg : Cfg} {b : Bot} {v : View} (h3 : v.v3 = true) 
     b.req = [] ∧ b.ack = [] ∧ b.nak = [] ∧ v.reqs = [] := by
   cases p with
   | neg _ he hs hf ha hauth hd hls _ _ _ _ => obtain ⟨a, b, c, d⟩ := hls ho; exact ⟨he, hs, hf, ha, hauth, hd, a, b, c, d⟩
-  | sasl _ _ _ _ _ _ _ _ hl => rw [ho] at hl; cases hl
-  | waiting _ _ _ _ _ hl => rw [ho] at hl; cases hl
-  | nocap h3' _ _ _ => rw [h3] at h3'; cases h3'
-  | motd _ _ _ _ hl => have := hl h3; rw [ho] at this; cases this
+  | sasl _ _ _ _ _ _ _ _ hl _ => rw [ho] at hl; cases hl
+  | waiting _ _ _ _ _ hl _ => rw [ho] at hl; cases hl
+  | nocap h3' _ _ _ _ => rw [h3] at h3'; cases h3'
+  | motd _ _ _ _ hl _ => have := hl h3; rw [ho] at this; cases this
 
 theorem doCapLs_more {cfg : Cfg} (t caps : Str) (s : St) :
     doCapLs cfg [t, sLS, sStar, caps] s = ok (addCapabilities cfg caps s) := by
@@ -1202,7 +1294,12 @@ theorem pres_lsFinal {cfg : Cfg} (hd : cfg.realDriver = false) {s : St} {v : Vie
         simp only [List.foldl_cons, List.foldl_nil, seeOut]
         refine .inr (.inr ⟨?_, ?_⟩)
         · rw [f3]; exact common_congr (b := bot s) e_c (common_view (v := v) rfl hcm)
-        · rw [f3]; exact .waiting h3 rfl (by simp only; omega) rfl hau rfl
+        · rw [f3]
+          refine .waiting h3 rfl (by simp only; omega) rfl hau rfl ?_
+          intro c hc
+          have hc' : c ∈ union s1.req (arrangeCaps s1.ack (newCaps s1)) := hc
+          rw [mem_union, hreq1, fill_eq_nil hfill] at hc'
+          rcases hc' with h | h <;> cases h
     · -- CAP REQ lines go out
       rw [if_neg hemp] at f1 f2 f3
       rw [requestCaps_eq] at f1 f2 f3
@@ -1272,22 +1369,27 @@ theorem filteredNext_sub {next : List Str} {v : Option Str} {x : Str} (h : x ∈
 
 /-- the phases other than the negotiation itself only see the acknowledged / refused sets change -/
 theorem phase_ackNak {cfg : Cfg} {b : Bot} {v : View} (A N : List Str) (rest : List (List Str))
+    (hA : ∀ c ∈ b.ack, c ∈ A) (hN : ∀ c ∈ b.nak, c ∈ N)
     (hne : b.fsm ≠ .INIT_CAP_NEGOTIATION) (p : Phase cfg b v) : Phase cfg { b with ack := A, nak := N } { v with reqs := rest } := by
+  have grow : (∀ c ∈ b.req, c ∈ b.ack ∨ c ∈ b.nak) → ∀ c ∈ b.req, c ∈ A ∨ c ∈ N := fun h c hc => by
+    rcases h c hc with h | h
+    · exact .inl (hA c h)
+    · exact .inr (hN c h)
   cases p with
   | neg _ _ _ hf _ _ _ _ _ _ _ _ => exact absurd hf hne
-  | sasl h3 he hs hf ha hauth hd hcur hl => exact .sasl h3 he hs hf ha hauth hd hcur hl
-  | waiting h3 he hs hf ha hl => exact .waiting h3 he hs hf ha hl
-  | nocap h3 hs hf ha => exact absurd hf hne
-  | motd hw hs hf ha hl => exact .motd hw hs hf ha hl
+  | sasl h3 he hs hf ha hauth hd hcur hl hres => exact .sasl h3 he hs hf ha hauth hd hcur hl (grow hres)
+  | waiting h3 he hs hf ha hl hres => exact .waiting h3 he hs hf ha hl (grow hres)
+  | nocap h3 hs hf ha _ => exact absurd hf hne
+  | motd hw hs hf ha hl hres => exact .motd hw hs hf ha hl (grow hres)
 
 theorem phase_fsm_of_reqs {cfg : Cfg} {b : Bot} {v : View} (h3 : v.v3 = true) (p : Phase cfg b v) :
     b.fsm = .INIT_CAP_NEGOTIATION ∨ b.fsm = .INIT_SASL ∨ b.fsm = .INIT_WAITING_MOTD ∨ b.fsm = .INIT_MOTD := by
   cases p with
   | neg _ _ _ hf _ _ _ _ _ _ _ _ => exact .inl hf
-  | sasl _ _ _ hf _ _ _ _ _ => exact .inr (.inl hf)
-  | waiting _ _ _ hf _ _ => exact .inr (.inr (.inl hf))
-  | nocap h3' _ _ _ => rw [h3] at h3'; cases h3'
-  | motd _ _ hf _ _ => exact .inr (.inr (.inr hf))
+  | sasl _ _ _ hf _ _ _ _ _ _ => exact .inr (.inl hf)
+  | waiting _ _ _ hf _ _ _ => exact .inr (.inr (.inl hf))
+  | nocap h3' _ _ _ _ => rw [h3] at h3'; cases h3'
+  | motd _ _ hf _ _ _ => exact .inr (.inr (.inr hf))
 
 theorem run_ackNak {cfg : Cfg} (isAck : Bool) (t sub caps n : Str)
     (hdisp : dispatch ⟨sCAP, [t, sub, caps], n⟩ = (if isAck then .capAck else .capNak)) (s : St) :
@@ -1311,10 +1413,10 @@ theorem pres_ackNak {cfg : Cfg} (hd : cfg.realDriver = false) {s : St} {v : View
   by_cases hneg : s.fsm = .INIT_CAP_NEGOTIATION
   · -- the negotiation phase proper
     cases hp with
-    | sasl _ _ _ hf _ _ _ _ _ => rw [show (bot s).fsm = s.fsm from rfl, hneg] at hf; cases hf
-    | waiting _ _ _ hf _ _ => rw [show (bot s).fsm = s.fsm from rfl, hneg] at hf; cases hf
-    | nocap h3' _ _ _ => rw [h3] at h3'; cases h3'
-    | motd _ _ hf _ _ => rw [show (bot s).fsm = s.fsm from rfl, hneg] at hf; cases hf
+    | sasl _ _ _ hf _ _ _ _ _ _ => rw [show (bot s).fsm = s.fsm from rfl, hneg] at hf; cases hf
+    | waiting _ _ _ hf _ _ _ => rw [show (bot s).fsm = s.fsm from rfl, hneg] at hf; cases hf
+    | nocap h3' _ _ _ _ => rw [h3] at h3'; cases h3'
+    | motd _ _ hf _ _ _ => rw [show (bot s).fsm = s.fsm from rfl, hneg] at hf; cases hf
     | neg _ he hs hf hau hauth hdec hls howe hacc hkeys hne =>
       have hlo : v.lsOwed = false := by
         cases hlo : v.lsOwed with
@@ -1346,7 +1448,9 @@ theorem pres_ackNak {cfg : Cfg} (hd : cfg.realDriver = false) {s : St} {v : View
       by_cases hun : subset (newAck isAck ws s ++ newNak isAck ws s) s.req = true
       · simp only [hun, Bool.not_true, Bool.false_eq_true, if_false] at f1 f2 f3
         by_cases hall : subset s.req (newAck isAck ws s ++ newNak isAck ws s) = true
-        · simp only [hall, if_true] at f1 f2 f3
+        · have hresN : ∀ c ∈ s.req, c ∈ newAck isAck ws s ∨ c ∈ newNak isAck ws s := fun c hc =>
+            List.mem_append.mp (subset_iff.mp hall c hc)
+          simp only [hall, if_true] at f1 f2 f3
           by_cases hsasl : (newAck isAck ws s).contains sSasl = true
           · -- SASL starts
             simp only [hsasl, if_true] at f1 f2 f3
@@ -1373,8 +1477,10 @@ theorem pres_ackNak {cfg : Cfg} (hd : cfg.realDriver = false) {s : St} {v : View
               · intro _; rw [f3]
                 have := hcm.nick0 hs
                 cases isAck <;> simpa [bot, ackNakSt] using this
-              · rw [f3]; exact .sasl h3 he hs rfl (by simp) (by cases isAck <;> simpa [bot, ackNakSt] using hauth)
+              · rw [f3]; exact .sasl h3 he hs rfl rfl (by cases isAck <;> simpa [bot, ackNakSt] using hauth)
                   (by cases isAck <;> simpa [bot, ackNakSt] using hdec) (by simp [bot]) hlo
+                  (by show ∀ c ∈ (ackNakSt isAck ws s).req, c ∈ (ackNakSt isAck ws s).ack ∨ c ∈ (ackNakSt isAck ws s).nak
+                      rw [b4, b5, b6]; exact hresN)
             | nil =>
               rw [hfn] at f1 f2 f3
               by_cases hr : cfg.required = true
@@ -1390,6 +1496,8 @@ theorem pres_ackNak {cfg : Cfg} (hd : cfg.realDriver = false) {s : St} {v : View
                   have := hcm.nick0 hs
                   cases isAck <;> simpa [bot, ackNakSt] using this
                 · rw [f3]; exact .waiting h3 rfl (by simp only; omega) rfl hau hlo
+                    (by show ∀ c ∈ (ackNakSt isAck ws s).req, c ∈ (ackNakSt isAck ws s).ack ∨ c ∈ (ackNakSt isAck ws s).nak
+                        rw [b4, b5, b6]; exact hresN)
           · -- no sasl: CAP END
             simp only [hsasl, Bool.false_eq_true, if_false] at f1 f2 f3
             have hec := endCap_neg (cfg := cfg) hd (ackNakSt isAck ws s) hfs'
@@ -1406,6 +1514,8 @@ theorem pres_ackNak {cfg : Cfg} (hd : cfg.realDriver = false) {s : St} {v : View
                 refine common_congr (b := bot s) ?_ (common_view (v := v) rfl hcm)
                 cases isAck <;> simp [cfields, bot, ackNakSt, sendMsg, ok]
               · rw [f3]; exact .waiting h3 rfl (by simp only; omega) rfl hau hlo
+                  (by show ∀ c ∈ (ackNakSt isAck ws s).req, c ∈ (ackNakSt isAck ws s).ack ∨ c ∈ (ackNakSt isAck ws s).nak
+                      rw [b4, b5, b6]; exact hresN)
         · -- still waiting for the answer to another CAP REQ
           simp only [hall, Bool.false_eq_true, if_false, ok, b2, b3, hq.1, hq.2] at f1 f2 f3
           rw [seeStep_quiet { v with reqs := rest } _ f2 ha, f1]
@@ -1444,7 +1554,7 @@ theorem pres_ackNak {cfg : Cfg} (hd : cfg.realDriver = false) {s : St} {v : View
       refine .inr (.inr ⟨?_, ?_⟩)
       · rw [f3]; exact common_view (v := v) rfl hcm
       · rw [f3]
-        have := phase_ackNak (cfg := cfg) (b := bot s) (v := v) s.ack s.nak rest hneg hp
+        have := phase_ackNak (cfg := cfg) (b := bot s) (v := v) s.ack s.nak rest (fun _ h => h) (fun _ h => h) hneg hp
         exact this
     · simp only [hwe, Bool.false_eq_true, if_false] at f1 f2 f3
       rw [capUpkeep_raises _ (by rw [b7]; exact hcont)] at f1 f2 f3
@@ -1453,7 +1563,7 @@ theorem pres_ackNak {cfg : Cfg} (hd : cfg.realDriver = false) {s : St} {v : View
       simp only [List.foldl_nil]
       refine .inr (.inr ⟨?_, ?_⟩)
       · rw [f3, b1]; exact common_congr (b := bot s) rfl (common_view (v := v) rfl hcm)
-      · rw [f3, b1]; exact phase_ackNak _ _ rest hneg hp
+      · rw [f3, b1]; exact phase_ackNak _ _ rest m1 m2 hneg hp
 
 /-! ### joint histories and the invariant along them -/
 
@@ -1502,7 +1612,7 @@ theorem inv_start (cfg : Cfg) (base : St) (v3 : Bool) :
     | true =>
       exact .neg rfl rfl rfl rfl rfl rfl rfl (fun _ => ⟨rfl, rfl, rfl, rfl⟩) (fun h => by cases h)
         (fun c hc => by cases hc) ⟨fun c hc => (by cases hc), fun c hc => (by simp at hc)⟩ (fun l hl => by cases hl)
-    | false => exact .nocap rfl (by simp) rfl rfl
+    | false => exact .nocap rfl (by simp) rfl rfl rfl
 
 theorem preach_drained {cfg : Cfg} {base : St} {v3 : Bool} {s : St} {v : View} (r : PReach cfg base v3 s v) :
     s.fastq = [] ∧ s.ev = [] := by
@@ -1539,16 +1649,16 @@ theorem inv_preach {cfg : Cfg} (hd : cfg.realDriver = false) {base : St} {v3 : B
         have hf : s.fsm = .INIT_MOTD := by
           cases hp with
           | neg _ _ hs0 _ _ _ _ _ _ _ _ _ => omega
-          | sasl _ _ hs0 _ _ _ _ _ _ => omega
-          | waiting _ _ hs5 _ _ _ => omega
-          | nocap _ hs5 _ _ => omega
-          | motd _ _ hf _ _ => exact hf
+          | sasl _ _ hs0 _ _ _ _ _ _ _ => omega
+          | waiting _ _ hs5 _ _ _ _ => omega
+          | nocap _ hs5 _ _ _ => omega
+          | motd _ _ hf _ _ _ => exact hf
         exact pres_endMotd hd (v' := { v with stage := 7 }) ⟨num '3' '7' '6', a :: args, n⟩
           (nickSetter_numeric _ _ _ _ _ (show Gen.Conn.nickSetters.contains (num '3' '7' '6') = true by decide)) rfl rfl rfl rfl
           (.inr (.inr hf)) hq
       case noMotd args n hw hs =>
         obtain ⟨hcm, hp⟩ := h
-        obtain ⟨hfsm, _, _⟩ := phase_fsm_welcome hw (by omega) hp
+        obtain ⟨hfsm, _, _, _⟩ := phase_fsm_welcome hw (by omega) hp
         have hf : s.fsm = .INIT_CAP_NEGOTIATION ∨ s.fsm = .INIT_WAITING_MOTD ∨ s.fsm = .INIT_MOTD := by
           rcases hfsm with h | h
           · exact .inl h
@@ -1582,14 +1692,14 @@ def srvCap (v : View) (args : List Str) : Option View :=
 
 def srvAuth (v : View) (args : List Str) : Option View :=
   match args with
-  | [c] => if v.v3 = true ∧ v.auth ≠ .none ∧
+  | [c] => if v.v3 = true ∧ v.auth.owed = true ∧
               (c = sPlus ∨ (c.length ≠ Gen.Conn.authenticateChunkSize ∧ (b64decodedLen [c]).isSome = true))
            then some { v with auth := .none } else none
   | _ => none
 
 def srvSaslNumeric (v : View) (cmd : Str) : Option View :=
   if cmd = num '9' '0' '3' then (if v.v3 = true ∧ v.auth = .payload then some { v with auth := .none } else none)
-  else if isFailNumeric cmd = true then (if v.v3 = true ∧ v.auth ≠ .none then some { v with auth := .none } else none)
+  else if isFailNumeric cmd = true then (if v.v3 = true ∧ v.auth.owed = true then some { v with auth := .none } else none)
   else if cmd = num '9' '0' '8' then (if v.auth = .mech then some v else none)
   else none
 
